@@ -254,6 +254,40 @@ def translate(repo):
             k += 1
     if k != 2:
         raise TranslationError(f"getSfuncFixedSpacing: expected two constructor calls, found {k}")
+    # ---- combineSfuncs: the radially varying blending ranges this_range_lower / this_range_upper, one expression per side of the separatrix
+    #      (ix >= 0: outside, ix < 0: inside), as functions of (xweight, range at the separatrix, *_inner, *_outer)
+    node = get_function(path, "EquilibriumRegion.combineSfuncs")
+    found = {}
+    for top in ast.walk(node):
+        if not isinstance(top, ast.If) or src_of(top.test) != "ix >= 0":
+            continue
+        for side, body in (("out", top.body), ("in", top.orelse)):
+            for st in body:
+                if isinstance(st, ast.Assign) and len(st.targets) == 1 and isinstance(st.targets[0], ast.Name) and st.targets[0].id in ("this_range_lower", "this_range_upper"):
+                    end = st.targets[0].id.split("_")[-1]
+                    nm = {f"spacings['nonorthogonal_range_{end}']": "r_sep", f"spacings['nonorthogonal_range_{end}_inner']": "r_inner",
+                          f"spacings['nonorthogonal_range_{end}_outer']": "r_outer"}
+
+                    class Sub(ast.NodeTransformer):
+                        def visit_Subscript(self, sub):
+                            # a subscript that is not one of the three above (e.g. the OTHER end's parameter) must not be read here
+                            if src_of(sub) not in nm:
+                                raise TranslationError(f"combineSfuncs: this_range_{end} (ix {'>=' if side == 'out' else '<'} 0) reads {src_of(sub)}")
+                            return ast.copy_location(ast.Name(id=nm[src_of(sub)], ctx=ast.Load()), sub)
+                    import copy
+                    val = ast.fix_missing_locations(Sub().visit(copy.deepcopy(st.value)))
+                    ex = SExec(strip=())
+                    e = ex.expr(val)
+                    op = pyir.find_opaque(e)
+                    if op:
+                        raise TranslationError(f"combineSfuncs this_range_{end}: {op}")
+                    key = f"Range_{end}_{side}"
+                    if key in found:
+                        raise TranslationError(f"combineSfuncs: {key} assigned twice")
+                    found[key] = e
+    if sorted(found) != ["Range_lower_in", "Range_lower_out", "Range_upper_in", "Range_upper_out"]:
+        raise TranslationError(f"combineSfuncs: expected four blending-range assignments, found {sorted(found)}")
+    out.update(found)
     cm = ast.unparse(get_function(path, "EquilibriumRegion._checkMonotonic"))
     for frag in ["indices = numpy.arange(-self.extend_lower, 2 * self.ny_noguards + self.extend_upper + 1, dtype=float)", "scheck = sfunc_list[0][0](indices)", "if numpy.any(scheck[1:] < scheck[:-1]):", "raise ValueError("]:
         if frag not in cm:
@@ -296,7 +330,7 @@ def pr(e):
 
 
 SQRT_IN = ["length", "N", "N_norm", "a_lower", "b_lower", "a_upper", "b_upper", "i"]
-INPUTS = {"Nnorm": ["N_norm_prefactor", "ny_total"], "sqrt2": SQRT_IN, "sqrtU": ["length", "N", "N_norm", "a_upper", "b_upper", "i"], "sqrtL": ["length", "N", "N_norm", "a_lower", "b_lower", "i"],
+INPUTS = {"Nnorm": ["N_norm_prefactor", "ny_total"], "Range": ["xweight", "r_sep", "r_inner", "r_outer"], "sqrt2": SQRT_IN, "sqrtU": ["length", "N", "N_norm", "a_upper", "b_upper", "i"], "sqrtL": ["length", "N", "N_norm", "a_lower", "b_lower", "i"],
           "sqrt0": ["length", "N", "i"], "mono_convex": ["length", "N", "N_norm", "d_lower", "d_upper", "i"],
           "mono_concave": ["length", "N", "N_norm", "d_lower", "d_upper", "l1", "l2", "l3", "r2", "r3", "i"], "linear": ["length", "N", "i"]}
 
